@@ -11,7 +11,7 @@ from pyvc_spec import *
 from spacepackets.ccsds.spacepacket import parse_space_packets, PacketId, SpacePacketHeader, PacketType
 
 Q = "spacepackets.ccsds.spacepacket:parse_space_packets"
-IDS = ListOf(IntRange(0, 8191), 2)      # registered packet IDs (13-bit words); at most 3 distinct values per harness
+IDS = ListOf(IntRange(0, 8191), by_tier(2, 4))      # registered packet IDs (13-bit words): at most 2 (quick) / 4 (thorough) per harness
 
 
 def pid_at(B, i):
